@@ -21,7 +21,7 @@ def build_corpus(tier, seed):
     return rc + ex, total, budgets
 
 
-def run_flow(prop, cases, budgets, kinds, tier, seed, depth=4, rule="", assumptions=(), extra_probes=None, rich=False):
+def run_flow(prop, cases, budgets, kinds, tier, seed, depth=4, rule="", assumptions=(), extra_probes=None, rich=False, scope=None):
     t0 = time.time()
     rnd = random.Random(seed)
     rec = core.record("compile", cases)
@@ -34,11 +34,15 @@ def run_flow(prop, cases, budgets, kinds, tier, seed, depth=4, rule="", assumpti
     byid = {r["id"]: r for r in records}
     v = core.Verdict(prop)
     nfail = 0
+    nout = 0
     for d in mism:
         r = byid[d["id"]]
         q = r["_raw"][d["qi"] - 1]
         for k in sorted(d["failed"]):
             if k not in kinds:
+                continue
+            if scope is not None and not scope(d, k):
+                nout += 1
                 continue
             nfail += 1
             sig = bashflow.signature(d, k)
@@ -66,7 +70,7 @@ def run_flow(prop, cases, budgets, kinds, tier, seed, depth=4, rule="", assumpti
            "programs": len(records), "evaluations": nq, "distinct_nontrivial": len(distinct),
            "spec_states_replayed": sum(len(x) for x in reps.values()),
            "rule": rule + " non-trivial = distinct (grammar, command line, COMP_WORDBREAKS) with a non-empty reply or a non-zero status",
-           "mismatching_aspects": nfail, "known_findings_hit": sorted(v.known_hits)}
+           "mismatching_aspects": nfail, "mismatches_outside_this_property": nout, "known_findings_hit": sorted(v.known_hits)}
     rc = v.finish()
     core.write_evidence(prop, tier, "model_checking", cov, list(assumptions) + [
         "readline is not run: COMP_WORDS/COMP_CWORD are set directly and _get_comp_words_by_ref is a 3-line stub",
